@@ -2537,9 +2537,9 @@ class Matrix:
             self.render(**kwargs)
         # An unrendered translation is a Length, which is mutable: a matrix built from another keeps its own.
         if isinstance(self.e, Length):
-            self.e = Length(self.e)
+            self.e = copy(self.e)
         if isinstance(self.f, Length):
-            self.f = Length(self.f)
+            self.f = copy(self.f)
 
     def __ne__(self, other):
         return not self.__eq__(other)
